@@ -48,6 +48,22 @@ pub trait Family: Send + Sync + 'static {
         true
     }
     fn describe(&self, op: &Op) -> String;
+    /// A per-state number whose maximum over all distinct reachable states is reported in the
+    /// evidence (union-find: longest find path), with its name.
+    fn metric(&self, _r: &Self::Recv) -> u64 {
+        0
+    }
+    fn metric_name(&self) -> &'static str {
+        "none"
+    }
+    /// Vacuity guard: the value `max metric` must reach once the state space is closed.
+    fn metric_required(&self) -> Option<u64> {
+        None
+    }
+    /// Families that are explored to closure regardless of the tier's history depth.
+    fn depth_override(&self) -> Option<usize> {
+        None
+    }
 }
 
 pub fn describe_history<F: Family>(f: &F, h: &[Op]) -> String {
@@ -111,7 +127,7 @@ fn rebuild<F: Family>(f: &F, h: &[Op]) -> (F::Recv, F::Model) {
 
 struct LevelOut<M> {
     st: Stats,
-    next: Vec<(Vec<Op>, String, M)>,
+    next: Vec<(Vec<Op>, String, M, u64)>,
     fails: Vec<(Vec<Op>, String)>,
 }
 
@@ -191,6 +207,8 @@ fn confirm<F: Family>(f: &Arc<F>, st: &mut Stats, replay_extra: &Value, h: Vec<O
 
 /// Level-synchronous BFS to `depth` operations after the initial constructor.
 pub fn bfs<F: Family>(f: Arc<F>, depth: usize, threads: usize, replay_extra: Value) -> BfsResult {
+    let depth = f.depth_override().unwrap_or(depth);
+    let mut max_metric = 0u64;
     let mut st = Stats::new();
     let mut visited: BTreeSet<(String, F::Model)> = BTreeSet::new();
     let mut frontier: Vec<Vec<Op>> = vec![];
@@ -208,6 +226,7 @@ pub fn bfs<F: Family>(f: Arc<F>, depth: usize, threads: usize, replay_extra: Val
                 st.outcome(&(f.name(), format!("{a:?}")));
                 if visited.insert((fp, m)) {
                     st.state();
+                    max_metric = max_metric.max(f.metric(&r));
                     frontier.push(vec![i]);
                 }
             }
@@ -261,7 +280,8 @@ pub fn bfs<F: Family>(f: Arc<F>, depth: usize, threads: usize, replay_extra: Val
                             if f.expand(op) {
                                 let mut h2 = h.clone();
                                 h2.push(*op);
-                                out.next.push((h2, fp2, m2));
+                                let mt = f.metric(&r2);
+                                out.next.push((h2, fp2, m2, mt));
                             }
                         }
                         Err(msg) => {
@@ -282,9 +302,10 @@ pub fn bfs<F: Family>(f: Arc<F>, depth: usize, threads: usize, replay_extra: Val
                 for o in outs {
                     st.merge(o.st);
                     fails.extend(o.fails);
-                    for (h, fp, m) in o.next {
+                    for (h, fp, m, mt) in o.next {
                         if visited.insert((fp, m)) {
                             st.state();
+                            max_metric = max_metric.max(mt);
                             frontier.push(h);
                         }
                     }
@@ -305,6 +326,11 @@ pub fn bfs<F: Family>(f: Arc<F>, depth: usize, threads: usize, replay_extra: Val
     if frontier.is_empty() && st.violations.is_empty() {
         fixpoint = true;
     }
+    if let Some(req) = f.metric_required() {
+        if st.violations.is_empty() && fixpoint && max_metric != req {
+            machinery(format!("{}: vacuity guard: {} reached only {max_metric}, required {req}", f.name(), f.metric_name()));
+        }
+    }
     let info = json!({
         "family": f.name(),
         "depth_bound": depth,
@@ -313,6 +339,8 @@ pub fn bfs<F: Family>(f: Arc<F>, depth: usize, threads: usize, replay_extra: Val
         "new_states_per_level": per_level,
         "alphabet": ops.len(),
         "initial_constructors": f.inits().len(),
+        "state_metric": f.metric_name(),
+        "max_state_metric": max_metric,
     });
     BfsResult { st, info }
 }
